@@ -38,6 +38,25 @@ claim("C10", "exploration", "runtime monitor: differential folded vs unfolded AS
       "Each generated expression is parsed with and without the folding pass and evaluated on events whose fields take 12 value kinds; results must agree in presence, variant and value; disagreements are minimised to the smallest differing sub-expression and classified by folding rule x operand kind; end-to-end lane through .emit/.where/.having.",
       "Needs hook H3. Cases where the unfolded evaluation panics are C11's subject and are skipped (counted).", "DESIGN §2 C10")
 
+claim("C12", "exploration", "runtime monitor: conservation + shape oracle over real window objects and the engine (uid fingerprints)",
+      "Every uid added to Tumbling/Count/Session windows (plain, partitioned; direct API and through the engine) must appear in exactly one emission or the final buffer, in arrival order, never twice, under arbitrary interleavings of add / advance_watermark / flush incl. out-of-order timestamps; count windows close with exactly their size; span / gap clauses for in-order streams under watermarks consistent with the stream. Exhaustive short streams over a 4-value timestamp alphabet + random histories.",
+      "Shape clauses are only checked under watermarks that never exceed the largest timestamp seen (see DESIGN C12).", "DESIGN §2 C12")
+claim("C13", "exploration", "runtime monitor: reference model of sliding emission timing and contents",
+      "Emission timing and exact contents of time-sliding and count-sliding windows (plain, partitioned, direct and engine lanes) against a reference model, exhaustive over all (size, slide) in 1..5 squared x short in-order streams with ties, plus random streams; slide > size for count windows accepts both conceivable readings and reports which one was observed.",
+      "Reading of 'starting once the window is first full' as in DESIGN C13.", "DESIGN §2 C13")
+claim("C14", "exploration", "runtime monitor: path-agreement + definition oracle; Miri (scalar + AVX2) and valgrind memcheck over the only unsafe module",
+      "Every aggregate on the row / shared / refs / columnar (fresh, pushed, cached, after drain) / Aggregator paths and through the engine against a straightforward reference and against each other on random batches incl. missing / NaN / inf / strings, all residues mod 4; raw simd kernels; sanitizer lanes: Miri interprets a deterministic subset on the scalar get_unchecked path and (with +avx2) the intrinsics path, valgrind memcheck runs the native AVX2 path of the same workload. Absence of reports = no UB observed on the executed batches.",
+      "stddev/ema NaN handling and count_distinct across int/float-equal values are undocumented: only path agreement there. Miri cannot cross FFI; red-zone tools miss non-adjacent overflows.", "DESIGN §2 C14")
+claim("C15", "exploration", "runtime monitor: reference join model compared at every arrival (direct JoinBuffer and engine lanes)",
+      "For 2- and 3-way joins with small windows, few keys, caps 2-4 and out-of-order timestamps: an output exists iff every source has a retained same-key event with ts >= arriving.ts - window, and the partners are the most recently arrived such events; compared at every arrival. Disagreements are classified by witness features (late arrival with a partner below the high-water cutoff, cap interplay).",
+      "One-sided window reading as try_correlate states it; retained = last cap arrivals per (source,key).", "DESIGN §2 C15")
+claim("C16", "exploration", "runtime monitor: differential between the four real entry points, root-cause classification with hook H4",
+      "Ordered output sequences of process / process_batch / process_batch_sync / process_batch_shared under random batch splits for generated multi-stream programs; a disagreement is classified order-only vs content by per-stream projection, and content disagreements are attributed to the known level-order-vs-depth-first root cause only when hook H4 shows the diverging stream (or one upstream) processed events at >=2 chain depths.",
+      "Outputs compared by stream name and data; a defect that is only visible through a mixed-depth consumer is masked by the known finding (stated in DESIGN).", "DESIGN §2 C16")
+claim("C17", "exploration", "runtime monitor: hook H4 routing trace vs harness-side consumption model",
+      "For every (stream, event uid, depth) the number of times the stream processed that event instance (hook H4, all four entry points) must equal the consumption relation computed from the program text, closed over chain depth < 10; chains, diamonds via merge, self-named streams, streams without emit, terminal window/sequence/join consumers.",
+      "Sequences/joins over derived streams are excluded (the engine resolves them to base type + filter, an internal choice).", "DESIGN §2 C17")
+
 NOT_BUILT = "check not built yet in this session (see DESIGN.md §2 for the planned monitor); nothing is claimed for it"
 
 checks = []
